@@ -328,13 +328,14 @@ ASSUME IF GenMode
 \* C12: payloads around and beyond the 4096-byte LZ window, for the compressed-suffix writes (one "B" line; the
 \* harness writes them into the empty configuration C8 and reads them back).  Content classes: periodic with a
 \* period that does not divide the window, text-like over a small alphabet, incompressible.
-Periodic(n, per) == [k \in 1..n |-> 65 + ((k * 3) % per)]
+Periodic(n, per) == [k \in 1..n |-> (((k % per) * 37) + ((k % per) \div 11)) % 256]
 TextLike(n) == [k \in 1..n |-> 97 + ((((k % 251) * (k % 241)) + (k \div 7)) % 4)]
 Incompr(n) == [k \in 1..n |-> ((k % 251) * 37 + (k % 241) * 101 + (k \div 3) * 7) % 256]
 BigPayloads == IF Tier = "quick"
                THEN { Periodic(4097, 7), TextLike(4097), Periodic(8200, 13), TextLike(20000), Incompr(4096) }
                ELSE { Periodic(n, 7) : n \in {4095, 4096, 4097, 8200} } \cup { TextLike(n) : n \in {4095, 4096, 4097, 8200, 20000} }
                     \cup { Incompr(n) : n \in {4095, 4097, 8200} } \cup { Periodic(20000, 4099), Periodic(12000, 13) }
+ASSUME GenMode => \A s \in BigPayloads : \A k \in 1..Len(s) : s[k] \in 0..255
 BigEvents == { Ev("write", p, FALSE, s, NoGlob) : p \in { Pth(<<hcmp>>), Pth(<<icms>>), Pth(<<glz>>) }, s \in BigPayloads }
              \cup { Ev("write", Pth(<<m, glz>>), TRUE, TextLike(4097), NoGlob), Ev("write", Pth(<<m, hcmp>>), TRUE, TextLike(4097), NoGlob),
                     Ev("write", Pth(<<fbin>>), FALSE, TextLike(4097), NoGlob) }
